@@ -16,18 +16,15 @@ def run(ctx):
         v = FnView.get(P, f)
         oks = ok_values(f, v)
         t = oks[0] if oks else ("unknown", "")
-        # closure return (the per-identifier preimage) with the captured prefix
-        clo = [s for s in subterms(t) if s[0] == "closure"]
-        per = None
-        for c in clo:
-            cf = P.fns.get(c[1])
-            if cf:
-                per = TermCx(P, cf).local(0)
+        # the per-identifier preimage, whatever the form of the traversal (C02's view)
+        from .c02 import preimage_entries
+        pe = preimage_entries(P, f, v)
+        per_parts = pe[1] if pe else []
         srcs = {
             "group-key": lambda: mentions(t, lambda s: is_call(s, name="serialize") and mentions(s, arg(2))),
             "message": lambda: mentions(t, fld(arg(1), "message")),
             "commitment-list": lambda: mentions(t, lambda s: is_call(s, name="encode_group_commitments") and fld(arg(1), "signing_commitments")(s[2][0])),
-            "signer-identifier": lambda: per is not None and mentions(per, lambda s: is_call(s, name="serialize") and mentions(s, lambda u: u == ("arg", 2))),
+            "signer-identifier": lambda: any(is_call(p_, name="serialize") and strip_newtype_fields(p_[2][0]) == ITEM for p_ in per_parts),
             "participant-set(keys)": lambda: mentions(t, lambda s: is_call(s, name="keys") and fld(arg(1), "signing_commitments")(s[2][0])),
         }
         for name, fn in srcs.items():
